@@ -27,7 +27,7 @@ NAME = "cosign"
 PROPS = ["C05", "C06", "C04", "C07"]
 COMPONENTS = {
     "real": ["network.tx (Tx/TxIn/TxOut) incl. LTC, BCH, BTG classes", "Tx.sign -> Solver, some_solvers, ConstraintSolver",
-             "tx_utils.sign_tx (WIF supply)", "pycoin.key.Keychain over sqlite3 (supply + p2sh lookup)",
+             "tx_utils.sign_tx (WIF supply) / create_signed_tx (one call)", "pycoin.key.Keychain over sqlite3 (supply + p2sh lookup)",
              "build_hash160_lookup / build_p2sh_lookup", "Tx.is_solution_ok / check_solution / bad_solution_count",
              "SolutionChecker, SegwitChecker, P2SChecker, Bcash/Bgold checkers, BitcoinVM, checksigops",
              "Tx.stream / parse / as_hex / from_hex / as_bin(include_unspents)", "secp256k1 production generator"],
